@@ -80,22 +80,22 @@ def F1():
 
 
 def F2():
+  """After the repair both scope builders append ';': 'name$' selects nothing, 'name;' the op."""
   name = 'StatefulPartitionedCall:0'
   data = test_utils.create_random_normal_input_data(M + 'single_fc.tflite', num_samples=1)['serving_default']
-  qt = quantizer.Quantizer(M + 'single_fc.tflite')
-  qt.update_quantization_recipe(re.escape(name) + '$', FC, a8w8())
-  cr = qt.calibrate(data)
-  _, _, rows = ops_of(qt.quantize(cr).quantized_model)
   msgs = []
-  if cr and all(t == 'FLOAT32' for _, i, o in rows for _, t in i + o):
-    msgs.append("regex 'name$': calibrated %d tensors but op left float" % len(cr))
-  qt = quantizer.Quantizer(M + 'single_fc.tflite')
-  qt.update_quantization_recipe(re.escape(name) + ';', FC, a8w8())
-  cr = qt.calibrate(data)
-  try:
-    qt.quantize(cr)
-  except RuntimeError as e:
-    msgs.append("regex 'name;': calibrate() returned %d entries, quantize() raised %s" % (len(cr), type(e).__name__))
+  for suffix in ('$', ';', ''):
+    qt = quantizer.Quantizer(M + 'single_fc.tflite')
+    qt.update_quantization_recipe(re.escape(name) + suffix, FC, a8w8())
+    cr = qt.calibrate(data)
+    try:
+      _, _, rows = ops_of(qt.quantize(cr).quantized_model)
+    except RuntimeError as e:
+      msgs.append("regex 'name%s': calibrate() returned %d entries, quantize() raised %s" % (suffix, len(cr), type(e).__name__))
+      continue
+    quantized = any(t != 'FLOAT32' for _, i, o in rows for _, t in i + o)
+    if bool(cr) != quantized:
+      msgs.append("regex 'name%s': calibrated %d tensors but op quantized=%s" % (suffix, len(cr), quantized))
   return '; '.join(msgs) or None
 
 
@@ -177,8 +177,30 @@ def F9():
   return None
 
 
+def F10():
+  qt = quantizer.Quantizer(M + 'single_fc.tflite')
+  qt.update_quantization_recipe('no_such_tensor_name', FC, a8w8())
+  data = test_utils.create_random_normal_input_data(M + 'single_fc.tflite', num_samples=1)['serving_default']
+  cr = qt.calibrate(data)
+  try:
+    qt.quantize(cr)
+  except RuntimeError as e:
+    return 'calibrate() returned %r and quantize() with it raised: %s' % (cr, str(e)[:60])
+  return None
+
+
+def F6b():
+  qt = quantizer.Quantizer(M + 'single_fc.tflite'); qt.update_quantization_recipe('.*', FC, a8w8())
+  data = test_utils.create_random_normal_input_data(M + 'single_fc.tflite', num_samples=1)['serving_default']
+  out = qt.quantize(qt.calibrate(data)).quantized_model
+  it = tfl_interpreter_utils.create_tfl_interpreter(bytes(out))
+  r = tfl_interpreter_utils.invoke_interpreter_signature(it, data[0])
+  bad = {k: str(v.dtype) for k, v in r.items() if v.dtype != np.float32}
+  return 'signature runner returns %s although OUTPUT is not covered by the recipe' % bad if bad else None
+
+
 if __name__ == '__main__':
-  cases = sys.argv[1:] or ['F%d' % i for i in range(1, 10)]
+  cases = sys.argv[1:] or ['F%d' % i for i in range(1, 11)] + ['F6b']
   for c in cases:
     try:
       r = globals()[c]()
